@@ -1,7 +1,7 @@
 (* Proofs/C01_arith.v — Spec/IRSem arithmetic in the IR type of a C type computes the C11 operators
    (operands already converted): one lemma per operator class, exact casts, exact comparisons. *)
-From PV Require Import Lib.Py Lib.Tac Spec.CIntSpec Spec.CExprSpec Gen.ceval Model.CEval Model.CSema
-                       Model.CGenExpr Spec.IRSyntax Spec.IRSem Proofs.C27_ceval.
+From PV Require Import Lib.Py Lib.Tac Spec.CIntSpec Spec.CExprSpec Gen.ceval Model.CEval
+                       Model.CGenExpr Spec.IRSyntax Spec.IRSem Proofs.C01_base.
 From Coq Require Import String.
 Open Scope Z_scope.
 
